@@ -107,9 +107,16 @@ def read_slots(P, utils):
                     s.relay_if = st
                     s.relay_var = st.test.id
     s.ret = [st for st in body if isinstance(st, ast.Return)]
-    if len(s.ret) != 1 or s.ret[0] is not body[-1]:
-        raise AnalysisError('normalize_event_code: expected a single final return')
-    rem = removal_idiom(P, s.ret[0].value, var)
+    s.early_returns = [n for n in ast.walk(fn) if isinstance(n, ast.Return) and n is not body[-1]]
+    if not s.ret or s.ret[-1] is not body[-1]:
+        raise AnalysisError('normalize_event_code: expected a final return')
+    s.ret = [s.ret[-1]]
+    rexpr = s.ret[0].value
+    # `x = <expr>; return x` (also chained `x = CACHE[k] = <expr>`): resolve the returned name one step
+    if isinstance(rexpr, ast.Name) and len(body) >= 2 and isinstance(body[-2], ast.Assign) \
+            and any(isinstance(t, ast.Name) and t.id == rexpr.id for t in body[-2].targets):
+        rexpr = body[-2].value
+    rem = removal_idiom(P, rexpr, var)
     if rem is None:
         raise AnalysisError('normalize_event_code: final expression %s is not a recognised whitespace-removal idiom'
                             % unparse(s.ret[0].value))
@@ -249,6 +256,7 @@ def run(ctx, repo):
                    'image of such a spelling')
     ctx.rule('R7', '(thorough) per top-level alternative: Out(A_i) stays inside every family that contains A_i')
     ctx.rule('R8', '(thorough) set-level idempotence f_k(N_k) = N_k')
+    ctx.rule('R9', 'memo transparency: a cache in the normalisation path is keyed by the plain argument, complete, and stores what it returns')
     S = read_slots(P, utils)
     ctx.note('removal idiom of the final expression', S.removed_desc)
     ctx.note('_gnorms', gn)
@@ -273,6 +281,20 @@ def run(ctx, repo):
             ctx.ok('R5', 'refusal guard directly after PAT_EVENT_CODE.match')
     if not S.strips:
         ctx.info('normalize_event_code does not strip its argument first')
+    # a return before the refusal guard answers without validating (e.g. a memo looked up first)
+    for r in S.early_returns:
+        if S.guard is None or r.lineno < S.guard.lineno:
+            ctx.finding('R5', '%s::normalize_event_code::return before the refusal guard' % UTILS, UTILS, r.lineno,
+                        'normalize_event_code can return (%s) before the `not m -> raise ValueError` guard has run: a string that is '
+                        'not an event code can be answered instead of refused' % unparse(r))
+    from ..memo import analyse as memo_analyse
+    from ..props.c19 import module_mutables
+    mm = set(module_mutables(utils))
+    for fname in ['normalize_event_code', 'check_event_code'] + sorted(set(gn.values())) + ['_norm_tzeroes']:
+        if fname in fns:
+            res, memos = memo_analyse(fns[fname], mm)
+            for rule, msg, node in res:
+                ctx.finding('R9', '%s::%s::memo %s' % (UTILS, fname, rule), UTILS, node.lineno, msg, 'a valid code first, then a near miss differing only in what the key drops')
 
     # ---- normalisers: N_k
     N = {}
